@@ -21,6 +21,7 @@ type Exception struct {
 	Cause           Object
 	SuppressContext bool
 	Dict            StringDict // anything else that we want to stuff in
+	template        bool       // made by ExceptionTemplatef: raising it raises a copy
 }
 
 // A python exception info block
@@ -195,6 +196,18 @@ func ExceptionNewf(metatype *Type, format string, a ...interface{}) *Exception {
 	}
 }
 
+// ExceptionTemplatef makes an exception to keep in a package level
+// variable and return as an error any number of times.  Each time it is
+// raised into Python code a new exception object is made from it (see
+// MakeException) so what one handler does to "its" exception (set
+// attributes, a __cause__, a traceback) is not seen by the next one,
+// in this interpreter context or in another.
+func ExceptionTemplatef(metatype *Type, format string, a ...interface{}) *Exception {
+	e := ExceptionNewf(metatype, format, a...)
+	e.template = true
+	return e
+}
+
 /*
 	if py.ExceptionClassCheck(exc) {
 		t = exc.(*py.Type)
@@ -220,6 +233,12 @@ func ExceptionNewf(metatype *Type, format string, a ...interface{}) *Exception {
 func MakeException(r interface{}) *Exception {
 	switch x := r.(type) {
 	case *Exception:
+		if x.template {
+			if args, ok := x.Args.(Tuple); ok {
+				return exceptionNew(x.Base, args)
+			}
+			return exceptionNew(x.Base, nil)
+		}
 		return x
 	case *Type:
 		if x.Flags&TPFLAGS_BASE_EXC_SUBCLASS != 0 {
